@@ -3,9 +3,11 @@
 //! usage: bverif <property-id> <quick|thorough>
 //!        bverif replay <file>
 
+mod agentsx;
 mod bookprops;
 mod c07;
 mod c15;
+mod c17;
 mod marketx;
 mod envprops;
 mod envx;
@@ -44,6 +46,8 @@ fn main() {
         "C11" => envprops::c11(tier),
         "C14" => envprops::c14(tier),
         "C15" => c15::c15(tier),
+        "C16" => agentsx::c16(tier),
+        "C17" => c17::c17(tier),
         "C12" => bookprops::c12(tier),
         "C13" => bookprops::c13(tier),
         other => {
